@@ -244,6 +244,20 @@ where
         }
         self.storage.batch_set(updates).await?;
 
+        // Retrieve the new root hash while the transaction is still open (the updated root node is
+        // served from the pending records). Once the commit below has succeeded the new epoch is
+        // published, and nothing must be able to make this call fail anymore.
+        let root_hash = match current_azks
+            .get_root_hash_safe::<TC, _>(&self.storage, next_epoch)
+            .await
+        {
+            Ok(root_hash) => root_hash,
+            Err(err) => {
+                let _ = self.storage.rollback_transaction();
+                return Err(err);
+            }
+        };
+
         // Commit the transaction
         info!("Committing transaction");
         match self.storage.commit_transaction().await {
@@ -256,10 +270,6 @@ where
                 return Err(AkdError::Storage(err));
             }
         };
-
-        let root_hash = current_azks
-            .get_root_hash_safe::<TC, _>(&self.storage, next_epoch)
-            .await?;
 
         Ok(EpochHash(next_epoch, root_hash))
     }
